@@ -454,12 +454,20 @@ def _id_of_job_record(SS, cl, id_local):
             if not us or not all(_is_job_record(SS, parent_local(u)) for u in us):
                 return False
         return True
-    # computed in the parent: the captured number is File::id(job record)
-    us = _upvars_read(cl, sl)
-    if not us:
+    # computed in the parent: the captured number is File::id(job record) - captured on its own, or as a field of a
+    # struct the parent built for the child (the field is followed to the operand it was initialised with)
+    roots = common.origin_paths(cl, id_local)
+    if not roots or any(r[0] != "upvar" for (r, _) in roots):
         return False
-    for u in us:
-        psl, porg, par = backward_direct(SS, parent_local(u))
+    for (r, fields) in roots:
+        pl = parent_local(r[1])
+        sf_ = common.struct_fields_of(SS, pl) if pl is not None else None
+        if sf_ is not None and fields:
+            cand = [o for (fn, o) in sf_ if fn in fields]
+            if len(cand) != 1:
+                return False
+            pl = op_local(cand[0])
+        psl, porg, par = backward_direct(SS, pl)
         if par or not porg:
             return False
         for o in porg:
